@@ -760,6 +760,12 @@ func c16Expiry(r *Result) {
 	}
 	crumb("C16 certificate expiring after the configuration was prepared")
 	firstS, firstC := serverRole(), clientRole()
+	if time.Since(issued) > life-1500*time.Millisecond {
+		// certificate times have one-second resolution: on a machine this slow the first round may already have met the
+		// expired certificate - the scenario cannot check itself, so it says nothing
+		r.Stats["expiry-after-preparation-scenarios:skipped-machine-too-slow"]++
+		return
+	}
 	if d := time.Until(issued.Add(life + 1500*time.Millisecond)); d > 0 {
 		time.Sleep(d)
 	}
